@@ -450,7 +450,8 @@ func ruleRefcount(c *Ctx, m *multiModel) {
 		for _, t := range tests {
 			c.CheckAt("REFCOUNT", m.T+":release:decrement-before-zero-test", t, dec != nil && eng.Dominates(dec, t), "the zero test is not preceded by the decrement")
 		}
-		closeSock := methodCallOnField(p, "Close", m.sockT, m.sockField)
+		// the Close itself, or a call of a helper of the release code that closes the socket (closeSocketLocked())
+		closeSock := liftMay(c, methodCallOnField(p, "Close", m.sockT, m.sockField))
 		n := 0
 		for _, b := range r.Blocks {
 			for _, ins := range b.Instrs {
